@@ -169,6 +169,16 @@ def run(ctx):
     rc, rep = cr.stop()
     if rep.strip():
         ctx.violation("sanitizer report from the daemon during C03 cases", {"report": rep[:3000]}, found_input=False)
+    # per-connection: clients with different identities (values >= 2^31 included) being authenticated at the same instant
+    import conc
+    probs, rep = conc.identity_race(ctx, exe, nclients=8, rounds=600 if ctx.thorough else 120, nthreads=2)
+    dist["concurrent-identity-rounds"] = 8 * (600 if ctx.thorough else 120)
+    ctx.count(("identity-race", 8))
+    ctx.log("identity race: %d problems" % len(probs))
+    for pb in probs:
+        fails.append(dict(pb, kind="race"))
+    if rep.strip():
+        ctx.violation("sanitizer report from the daemon during the concurrent identity phase", {"report": rep[:3000]}, found_input=False)
     ctx.cov["input_distribution"] = dist
     ctx.cov["traces_validated_against_impl"] = ctx.cov["evaluations"]
     seen = set()
@@ -184,3 +194,6 @@ def run(ctx):
     if not fails and not mism and not proved:
         ctx.violation("proof obligation no longer checks: %s" % getattr(ctx, "broken_obligation", "?"),
                       {"obligation": getattr(ctx, "broken_obligation", "?"), "log": ctx.proof_log[-3000:]}, found_input=False)
+
+
+MANIFEST["level"] = (MANIFEST["level"][0], MANIFEST["level"][1] + ' Also 8 client processes with distinct identities (values >= 2^31 included) being authenticated at the same instant on a 2-thread daemon (tools/conc.py).', MANIFEST["level"][2])
